@@ -544,8 +544,12 @@ def r4c_outcome_store_is_total(chk: Check) -> None:
         g = cfg_of(fn)
         sn = [i for a in stores for i in g.stmt_nodes_containing(a)]
         w = g.path([g.entry], list(g.exits()), avoid=sn)
+        outcome_param = next((p_ for p_ in params_of(fn.node) if p_ not in ("self", "case", "input")), None)
+        on_outcome = w is not None and any(g.nodes[i].kind == "test" and g.nodes[i].ast is not None and outcome_param is not None and outcome_param in names_in(g.nodes[i].ast) for i, _ in w)
         if w is None:
             chk.ok("C12.R4c", fn, construct, "", fn.loc(stores[0]))
+        elif not on_outcome:
+            chk.undecided("C12.R4c", fn, construct, "a path avoids the store, but not on a test of the outcome itself", fn.loc(stores[0]))
         else:
             chk.violation("C12.R4c", fn, construct,
                           "there is a path through the setter that does not store: outcomes taken on it are forgotten - with unique inputs the same request is sent again in a later phase (e.g. `not isinstance(outcome, Exception)` exempts FailureGroup, a BaseExceptionGroup, i.e. every failed check)",
